@@ -43,7 +43,7 @@ Definition ex_case : tcase :=
      t_kind := KNoFileno;
      t_events := [Recv 5 0 [0; 4; 0; 0]; Recv 2100 0 [0; 4; 0; 1]; Recv 2101 0 [0; 4; 0; 1];
                   Recv 2102 0 [0; 4; 0; 2]; Recv 2103 0 [0; 4; 0; 3]]%N;
-     t_v := current; t_nv := ncurrent; t_na_always_skip := false |}.
+     t_proc := 0; t_v := current; t_nv := ncurrent; t_na_always_skip := false |}.
 Example C01_nonvacuous :
   valid ex_case /\
   proj_client_packets (run_transfer_case ex_case) =
